@@ -205,4 +205,57 @@ theorem dispatchHttp_eq (a : App) (route : Option MethodMap) (m : Method) (hits 
   unfold App.dispatchHttp
   rw [hc]; rfl
 
+/-! ### strengthening round: sink kwargs are `groupdict()` of the match object — every named group of the pattern, also
+    those that did not participate (value `None`); the constructor default of `sink_before_static_route` -/
+
+/-- the keys of `groupdict()` are the pattern's named groups: a property of the pattern, not of the individual match -/
+theorem groupdict_keys (m : Match) : m.groupdict.map Prod.fst = m.groupindex.map Prod.fst := by
+  simp [Match.groupdict, List.map_map, Function.comp_def]
+
+/-- **sink kwargs, exact**: when dispatch falls through to sink `id`, the keyword arguments are `groupdict()` of that sink's
+    match: their key list is the pattern's `groupindex` (whatever participated), and each named group `n` (number `i`)
+    arrives with the value `m.group(i)` — `None` when it did not participate -/
+theorem sink_kwargs_exact (a : App) (meth : Method) (hits : Kind × Nat → Bool) (mtab : Nat → Match) (id : Nat)
+    (h : a.getResponder none meth hits = .sink id) :
+    a.getParamsM none hits mtab = (mtab id).groupdict ∧
+    (a.getParamsM none hits mtab).map Prod.fst = (mtab id).groupindex.map Prod.fst ∧
+    ∀ n i, (n, i) ∈ (mtab id).groupindex → (n, (mtab id).group i) ∈ a.getParamsM none hits mtab := by
+  have h1 : a.getParamsM none hits mtab = (mtab id).groupdict :=
+    (kwargs_are_fields_or_groups a meth hits fun id => (mtab id).groupdict).2.1 id h
+  refine ⟨h1, by rw [h1, groupdict_keys], fun n i hm => ?_⟩
+  rw [h1]
+  exact List.mem_map.mpr ⟨(n, i), hm, rfl⟩
+
+/-- **no group participated** (`m.lastindex is None`): the sink still receives one keyword argument per named group, all `None` -/
+theorem sink_kwargs_nonparticipating (a : App) (meth : Method) (hits : Kind × Nat → Bool) (mtab : Nat → Match) (id : Nat)
+    (h : a.getResponder none meth hits = .sink id) (hn : ∀ i, (mtab id).group i = none) :
+    a.getParamsM none hits mtab = (mtab id).groupindex.map (fun ni => (ni.1, none)) ∧
+    (a.getParamsM none hits mtab).length = (mtab id).groupindex.length := by
+  have h1 := (sink_kwargs_exact a meth hits mtab id h).1
+  rw [h1]
+  refine ⟨?_, by simp [Match.groupdict]⟩
+  simp [Match.groupdict, hn]
+
+/-- with match objects as the table: static routes and 404 get no kwargs, a routed request gets the template fields -/
+theorem non_sink_kwargs_empty (a : App) (meth : Method) (hits : Kind × Nat → Bool) (mtab : Nat → Match) :
+    (∀ id, a.getResponder none meth hits = .static id → a.getParamsM none hits mtab = []) ∧
+    (a.getResponder none meth hits = .notFound → a.getParamsM none hits mtab = []) ∧
+    (∀ f, a.getParamsM (some f) hits mtab = f) := by
+  have := kwargs_are_fields_or_groups a meth hits fun id => (mtab id).groupdict
+  exact ⟨this.2.2.1, this.2.2.2, this.1⟩
+
+/-- an app constructed without `sink_before_static_route` is the app constructed with `True` -/
+theorem init_default : App.init none = App.init (some true) := rfl
+
+/-- `sink_static_order` for an app built by the constructor (`falcon.App`, `falcon.API`, `falcon.asgi.App`), option given or not -/
+theorem sink_static_order_init (ops : List Add) (o : Option Bool) :
+    (ops.foldl App.add (App.init o)).order =
+      if o.getD true then (sinkIds ops).reverse.map (Kind.sink, ·) ++ (staticIds ops).reverse.map (Kind.static, ·)
+      else (staticIds ops).reverse.map (Kind.static, ·) ++ (sinkIds ops).reverse.map (Kind.sink, ·) :=
+  sink_static_order ops (o.getD true)
+
+/-- a sink prefix `/s(?:/(?P<rest>[a-z]+))?(?P<tail>x)?` matched against `/s`: no group participates, both names arrive as `None` -/
+example : ((App.init none).addSink 0).getParamsM none (fun _ => true)
+    (fun _ => { groupindex := [("rest", 1), ("tail", 2)], group := fun _ => none }) = [("rest", none), ("tail", none)] := by decide
+
 end Dp
